@@ -216,6 +216,35 @@ def mutation_cmds(rng, v, h):
     return None
 
 
+def history_cmds(rng, toks, h):
+    """commands that grow and then shrink containers of the tree in handle h back to the same VALUE (equality and copies must not depend on how a tree
+    came to hold its value: table sizes, array capacities, tombstones)"""
+    v = toks_to_value(toks)
+    cand = [(p, x) for p, x in paths(v) if isinstance(x, (dict, list))]
+    if not cand:
+        return []
+    out = []
+    for p, x in rng.sample(cand, min(len(cand), rng.choice([1, 1, 2]))):
+        k = rng.choice([1, 5, 12, 13, 24, 30, 50, 90, 180])
+        out.append("NAV %d 5 %s" % (h, " ".join(p)))
+        if isinstance(x, dict):
+            keys = [(b"\x03fill%d" % j).hex() for j in range(k)]
+            for j, kk in enumerate(keys):
+                out += ["NEW 9 - int %d" % j, "OADD 5 x%s 9 0" % kk]
+            order = list(keys)
+            if rng.random() < 0.5:
+                rng.shuffle(order)
+            out += ["ODEL 5 x%s" % kk for kk in order]
+        else:
+            n0 = len(x)
+            for j in range(k):
+                out += ["NEW 9 - int %d" % j, "AADD 5 9"]
+            out.append("ADEL 5 %d %d" % (n0, k))
+            if rng.random() < 0.3:
+                out.append("ASHRINK 5 %d" % rng.choice([0, 1, 5]))
+    return out
+
+
 def shard_fn(shard, nshards, seed, tier, exe, npairs, ncopies):
     rng = random.Random("%d/%d/c09" % (seed, shard))
     sh = core.Shard()
@@ -247,10 +276,17 @@ def shard_fn(shard, nshards, seed, tier, exe, npairs, ncopies):
         c = permute(rng, b) if rng.random() < 0.7 else (mutate_tokens(rng, b) if rng.random() < 0.5 else tree())
         cid = "%d.p%d" % (shard, n)
         n += 1
-        cmds = ["B 0 " + " ".join(a), "B 1 " + " ".join(b), "B 2 " + " ".join(c),
+        hist = []
+        if rng.random() < 0.25:
+            hh = rng.randrange(3)
+            hist = history_cmds(rng, (a, b, c)[hh], hh)
+            if hist:
+                rel += "+history"
+        nh = len(hist)
+        cmds = ["B 0 " + " ".join(a), "B 1 " + " ".join(b), "B 2 " + " ".join(c)] + hist + [
                 "EQ 0 1", "EQ 1 0", "EQ 1 2", "EQ 2 1", "EQ 0 2", "EQ 2 0", "EQ 0 0", "EQ 1 1", "EQ 2 2", "PUT 0", "PUT 1", "PUT 2"]
         cases.append((cid, cmds))
-        meta[cid] = ("triple", rel, a, b, c)
+        meta[cid] = ("triple", rel, a, b, c, nh)
     for _ in range(ncopies // nshards):
         a = tree(0.05)
         va = toks_to_value(a)
@@ -259,7 +295,9 @@ def shard_fn(shard, nshards, seed, tier, exe, npairs, ncopies):
             va = toks_to_value(a)
         cid = "%d.c%d" % (shard, n)
         n += 1
-        cmds = ["B 0 " + " ".join(a), "DCOPY 0 1 0", "EQ 0 1", "EQ 1 0", "S64 0", "S64 1", "PTRS 0", "PTRS 1", "D 0", "D 1"]
+        hist = history_cmds(rng, a, 0) if rng.random() < 0.25 else []
+        nh = len(hist)
+        cmds = ["B 0 " + " ".join(a)] + hist + ["DCOPY 0 1 0", "EQ 0 1", "EQ 1 0", "S64 0", "S64 1", "PTRS 0", "PTRS 1", "D 0", "D 1"]
         # mutate one side at a random node, then the other side must be unchanged
         side = rng.randrange(2)
         cand = [(p, v) for p, v in paths(va) if v is not None]
@@ -271,7 +309,7 @@ def shard_fn(shard, nshards, seed, tier, exe, npairs, ncopies):
         # destroy the mutated side, the other must still be intact and usable
         cmds += ["PUT %d" % side, "D %d" % (1 - side), "S %d 0" % (1 - side), "PUT %d" % (1 - side)]
         cases.append((cid, cmds))
-        meta[cid] = ("copy", side, a, bool(mc), len(mc or []))
+        meta[cid] = ("copy", side, a, bool(mc), len(mc or []), nh)
     results, crashes = core.run_script(exe, cases, tag="c09")
     cmdmap = dict(cases)
     for cr in crashes:
@@ -286,9 +324,9 @@ def shard_fn(shard, nshards, seed, tier, exe, npairs, ncopies):
         if any(l.startswith("!") for l in lines):
             raise core.Inconclusive("driver rejected a command in %s: %s" % (cid, [l for l in lines if l.startswith("!")][:2]))
         if m[0] == "triple":
-            _, rel, a, b, c = m
+            _, rel, a, b, c, nh = m
             va, vb, vc = toks_to_value(a), toks_to_value(b), toks_to_value(c)
-            got = [int(l.split()[1]) for l in lines[3:12]]
+            got = [int(l.split()[1]) for l in lines[3 + nh:12 + nh]]
             ab, ba, bc, cb, ac, ca, aa, bb, cc = got
             sh.evaluations += 9
             exp = {"ab": veq(va, vb), "bc": veq(vb, vc), "ac": veq(va, vc)}
@@ -313,9 +351,12 @@ def shard_fn(shard, nshards, seed, tier, exe, npairs, ncopies):
             if has_nan(va):
                 sh.count("pairs.with_nan")
         else:
-            _, side, a, mutated, nmc = m
+            _, side, a, mutated, nmc, nh = m
             va = toks_to_value(a)
             sh.evaluations += 8
+            if nh:
+                sh.count("copies.after_grow_shrink_history")
+                lines = lines[:1] + lines[1 + nh:]
             rc = int(lines[1].split()[1])
             key = None
             if rc != 0:
@@ -371,7 +412,7 @@ def run(tier, seed):
     chk.absorb(sh)
     chk.rule = ("triples (a,b,c): b independent / one deep mutation of a (scalar replaced by a near value of the same or another kind, bytes after an embedded NUL, null vs absent member, added element) / "
                 "member permutation of a with integer representation flipped (int64<->uint64, 0.0<->-0.0) / rebuilt; c likewise from b; all 9 equal() calls compared with value equality + reflexive, symmetric, "
-                "transitive; NaN leaves. Copies: deep copy must be equal (NaN-free), serialize identically under all 64 flag sets, share no node pointer, survive mutation and destruction of the other side. "
+                "transitive; NaN leaves; a quarter of the triples and copies first grow a container of one tree by 1..180 filler members/elements and delete them again (same value, different table size / capacity / tombstones). Copies: deep copy must be equal (NaN-free), serialize identically under all 64 flag sets, share no node pointer, survive mutation and destruction of the other side. "
                 "evaluations = equal()/copy observations; distinct = distinct tree triples")
     chk.assumptions = ["value model: ints exact across signedness, doubles IEEE ==, strings bytes+length, objects unordered, kinds never mixed"]
     return chk.finish(min_evaluations=50000)
